@@ -343,6 +343,27 @@ def mrun (v : Variant) (K : Hdr → Key) (s : MState) : List Msg → MState
   | [] => s
   | m :: ms => mrun v K (mstep v K s m).1 ms
 
+/-- What can happen to one router's metrics entry: a message on the current
+    connection, or the connection ends and the same router connects again.
+    A reconnect gets a new state machine (`BmpState::new`, phase Initiating) on
+    the *same* ingress register and the *same* per-router metrics entry: the
+    entry is keyed by the router id, which is the router's ingress id
+    (util.rs `format_source_id`), found again by `find_existing_bmp_router`;
+    `remove_router_metrics` is only called on the never-taken abort path
+    (router_handler.rs:280-284). -/
+inductive Ev where
+  | msg (m : Msg)
+  | reconnect
+  deriving DecidableEq, Repr
+
+def MState.ev (v : Variant) (K : Hdr → Key) (s : MState) : Ev → MState
+  | .msg m => (mstep v K s m).1
+  | .reconnect => ⟨{ s.st with phase := .initiating, peers := [] }, s.mx⟩
+
+def mrunEv (v : Variant) (K : Hdr → Key) (s : MState) : List Ev → MState
+  | [] => s
+  | e :: es => mrunEv v K (s.ev v K e) es
+
 /-! ### Vocabulary of the C05 statements -/
 
 def isUp (s : State) (h : Hdr) : Bool := (findPeer h s.peers).isSome
